@@ -11,6 +11,7 @@ import (
 
 	"verif/core"
 	"verif/seeds"
+	"verif/zl"
 )
 
 // NamedReg is a registry obtained from the global one by a filter.
@@ -63,16 +64,22 @@ func RegistryFamily() []NamedReg {
 	return out
 }
 
-// pickSeeds selects every nth seed (all CRL and OCSP seeds are always kept:
-// they are few and are the only objects of their kind).
+// pickSeeds selects the seeds of a bounded run: all CRL and OCSP seeds (they
+// are few and are the only objects of their kind), a *cover* of the
+// certificate corpus — greedily, in name order, every seed on which some lint
+// reaches a (lint, status) pair no earlier seed reached, so that every lint
+// that the corpus can judge / make report is judged / reports in every run —
+// and, for diversity, every nth of the remaining seeds. nth ≤ 1 selects all.
+// The selection is a deterministic function of the tree under test.
 func pickSeeds(all []seeds.Seed, nth int) []seeds.Seed {
 	if nth <= 1 {
 		return all
 	}
+	cover := coverSeeds(all)
 	var out []seeds.Seed
 	ci := 0
-	for _, s := range all {
-		if s.Kind != seeds.Cert {
+	for i, s := range all {
+		if s.Kind != seeds.Cert || cover[i] {
 			out = append(out, s)
 			continue
 		}
@@ -82,6 +89,38 @@ func pickSeeds(all []seeds.Seed, nth int) []seeds.Seed {
 		ci++
 	}
 	return out
+}
+
+// coverSeeds marks the seeds of the greedy (lint, status) cover.
+func coverSeeds(all []seeds.Seed) map[int]bool {
+	g := lint.GlobalRegistry()
+	seen := map[string]bool{}
+	cover := map[int]bool{}
+	for i := range all {
+		if all[i].Kind != seeds.Cert {
+			continue
+		}
+		o, err := zl.Parse(all[i].Kind, all[i].DER)
+		if err != nil {
+			continue
+		}
+		rs, _ := zl.Lint(o, g)
+		if rs == nil {
+			cover[i] = true // linting it panics: keep it in every run
+			continue
+		}
+		for name, r := range rs.Results {
+			if r == nil || r.Status == lint.NA || r.Status == lint.NE {
+				continue
+			}
+			k := name + "|" + r.Status.String()
+			if !seen[k] {
+				seen[k] = true
+				cover[i] = true
+			}
+		}
+	}
+	return cover
 }
 
 func argInt(ctx *core.Ctx, k string, def int) int {
